@@ -147,7 +147,8 @@ pub fn install_worker_panic_hook() {
                 .location()
                 .map(|l| {
                     let f = l.file();
-                    let f = f.strip_prefix("/repo/").unwrap_or(f);
+                    let root = format!("{}/", repo_root().display());
+                    let f = f.strip_prefix(root.as_str()).or_else(|| f.strip_prefix("/repo/")).unwrap_or(f);
                     format!("{}:{}", f, l.line())
                 })
                 .unwrap_or_else(|| "?".into());
